@@ -186,7 +186,8 @@ claim("C16",
       "Lean theorems KB.Props.C16 over the model of the etcd shim (kv.go recognisers, backendshim.go response shaping, watch event shaping) and a reference "
       "etcd-semantics model (KB.EtcdRef): `shim_sound` - in every consistent state, for EVERY structurally valid transaction (all shapes, flags, nested/empty ops, "
       "correct/stale/zero/future/negative expectations) the shim answers an error or exactly what etcd answers (success flag, failure-branch kv, revisions) and "
-      "`executed_only_if_canonical` / `refused_unchanged`: anything but the Kubernetes shapes is refused with nothing executed; range reads: kvs, order, more-flag and "
+      "`executed_only_if_canonical` / `refused_unchanged`: anything but the Kubernetes shapes is refused with nothing executed (the one canned answer, to kube-apiserver's "
+      "compaction probe, is given to EXACTLY that probe: `compact_probe_shape_exact`, `near_probe_rejected`, `answered_only_if_canonical_or_probe`); range reads: kvs, order, more-flag and "
       "header match the reference (`range_matches_ref`), the COUNT does not for limited ranges and unchecked bounds (two known findings, witnessed by theorems and "
       "replayed every run); watch events carry type, kv and prev_kv as etcd's. Correspondence: the real RPCServer (Txn/Range/Watch stream) over the real backend vs "
       "the model, plus an independent etcd-reference oracle in Python; witness scripts of the repaired recogniser defects run first.",
